@@ -119,11 +119,11 @@ void sched_configure(int mode, int P, uint64_t seed, int strategy, int param, in
 void sched_begin_factor(int P);          /* call right before a p?gstrf / driver call */
 void sched_end_factor(void);             /* after it returned: final monitor checks, export features */
 extern int g_mon_enabled;                /* monitor on/off */
-extern int g_mon_strict_info;            /* 1: a thread returning early is a finding */
+extern int g_mon_strict_info; extern int g_mon_i3_strict; extern int g_yield_prune_inner;            /* 1: a thread returning early is a finding */
 typedef struct {
     long events, yields, switches, takes, pipe_takes, dad_takes, go_takes, blocked_waits, spins, prunes,
          newnsuper, lusup_allocs, dyn_setmaps, threads_with_panels, npanels, nrelaxed, updates_done, updates_busy,
-         max_fill_permille, min_slack, tail_max, thread_starts, thread_exits, prune_while_dfs, takes_with_busy, singular_events, no_candidate, tight_slots;
+         max_fill_permille, min_slack, tail_max, thread_starts, thread_exits, prune_while_dfs, takes_with_busy, singular_events, no_candidate, tight_slots, dfs_steps, prune_steps, prune_during_read, double_prune;
 } mon_stats;
 extern mon_stats g_mon;
 
